@@ -106,7 +106,7 @@ def _gen_part(rng, scale0, zv, prev):
 
 def gen_cases(seed, tier):
     rng = np.random.default_rng([seed, 9])
-    n = 2400 if tier == 'quick' else 120000
+    n = 2400 if tier == 'quick' else 100000
     lengths = LENGTHS_Q if tier == 'quick' else LENGTHS_T
     cases = []
     for i in range(n):
@@ -363,8 +363,7 @@ def judge(R, x, out, st, kind, custom, tm, ts, bits, N, events, info, alt=None):
         key = 'zero-variance-float-std' if residue else 'zero-variance-not-target-mean'
         R.check(not bad.any(), key, constant=float(xf[0]), got=sorted(set(of[bad].tolist()))[:4], want=[lo, hi],
                 n=int(xf.size), window_constant=st["m"], call_kind=kind, **info)
-        # floating point events are observed per API call: attributable to this part only if every part of the
-        # call is a zero-variance input (events is None otherwise)
+        # events is None when the call's floating point events cannot be attributed to zero-variance parts only
         for word in ('overflow', 'invalid') if events is not None else ():
             R.check(word not in events, f'zero-variance-{word}-warning', constant=float(xf[0]), n=int(xf.size), call_kind=kind, **info)
         return True       # does not desynchronise the shadow: the history goes on
@@ -535,12 +534,10 @@ def run_case(c, R):
         else:
             R.check(np.array_equal(x, parts[0]), 'input-modified', **info)
         ok = True
-        if not all(float(p_.min()) == float(p_.max()) for p_ in parts):
-            ev = None
+        plan = []
         for k in range(nparts):
             s_ = sh[k]
             xin = parts[k]
-            pinfo = dict(info, part=('real', 'imag')[k]) if cx else info
             if api in ('real', 'complex'):
                 prev_in_force = s_.cur
                 refresh, later, st = s_.on_call(xin)
@@ -556,14 +553,7 @@ def run_case(c, R):
                     alt = prev_in_force
                 elif not refresh:
                     alt = _Lazy(xin, N)
-                ok &= judge(R, xin, outs[k], st, kind, customs[k], s_.tm, s_.ts, bits, N, ev, pinfo, alt=alt)
-                sub = q if api == 'real' else getattr(q, ('quantizer_r', 'quantizer_i')[k], None)
-                if sub is not None and hasattr(sub, 'stats_cache'):
-                    check_cache(R, sub.stats_cache, st, pinfo)
-                if api == 'complex':
-                    top = getattr(q, ('stats_cache_r', 'stats_cache_i')[k], None)
-                    if top is not None:
-                        check_cache(R, top, st, dict(pinfo, attr='stats_cache_' + 'ri'[k]))
+                plan.append((st, kind, customs[k], s_.tm, s_.ts, alt))
             else:
                 ex = call.get('explicit') if api == 'func_real' else None
                 if ex:
@@ -573,7 +563,22 @@ def run_case(c, R):
                 else:
                     st = ref_stats(xin, N)
                     kind = 'stateless'
-                ok &= judge(R, xin, outs[k], st, kind, None, c['tm'], ts0, bits, N, ev, pinfo)
+                plan.append((st, kind, None, c['tm'], ts0, None))
+        # floating point events are observed per API call: they are attributed to the zero-variance clause only when
+        # every part of the call is judged under that clause
+        all_zv = all(pl[0]['const'] and pl[2] is None and pl[1] != 'explicit' and float(parts[k].min()) == float(parts[k].max())
+                     for k, pl in enumerate(plan))
+        for k, (st, kind, cust, tm_k, ts_k, alt) in enumerate(plan):
+            pinfo = dict(info, part=('real', 'imag')[k]) if cx else info
+            ok &= judge(R, parts[k], outs[k], st, kind, cust, tm_k, ts_k, bits, N, ev if all_zv else None, pinfo, alt=alt)
+            if api in ('real', 'complex'):
+                sub = q if api == 'real' else getattr(q, ('quantizer_r', 'quantizer_i')[k], None)
+                if sub is not None and hasattr(sub, 'stats_cache'):
+                    check_cache(R, sub.stats_cache, st, pinfo)
+                if api == 'complex':
+                    top = getattr(q, ('stats_cache_r', 'stats_cache_i')[k], None)
+                    if top is not None:
+                        check_cache(R, top, st, dict(pinfo, attr='stats_cache_' + 'ri'[k]))
         # ---- complex quantiser: one part must not depend on the other part's input
         if twin is not None:
             j = c['twin_part']            # the part that is REPLACED in the twin's input
